@@ -653,6 +653,8 @@ func checkC13(c *Ctx) {
 	checkReplyWalk(c, "R8")
 	c.Rule("R9", "the compression options are read from the live configuration holder on every request (shared with C08.R9)")
 	checkLiveConfig(c, "R9")
+	c.Rule("R10", "the once-only mark travels with the body: no request of the flagged type is built around the body of another one (the new object would start with a clear flag and the shared body be compressed again)")
+	checkBodyNotShared(c, "R10")
 }
 
 // checkCpsHeader: writer builds magic ‖ alg ‖ CRLF; reader tests/strips the same offsets.
@@ -944,4 +946,124 @@ func sameValueOrLoad(a, b ssa.Value) bool {
 		return ok && xa.X == xb.X && xa.Field == xb.Field
 	}
 	return la.X == lb.X
+}
+
+// checkBodyNotShared (C13.R10): the once-only guard of the compression filter is a flag on the request object, while
+// what it protects - the body, compressed in place - can be shared: a second request object built around the body of
+// another one starts with a clear flag, and the next pass through the filter compresses the already compressed values
+// again (reads then return the inner frame). No request of the flagged type may be constructed from the body of
+// another request of that type, unless the flag is copied along.
+func checkBodyNotShared(c *Ctx, rule string) {
+	p := c.P
+	reqT := p.Named(redisPkg, "simpleRequest")
+	if reqT == nil {
+		c.Unresolved(rule, "simpleRequest")
+		return
+	}
+	st, _ := reqT.Underlying().(*types.Struct)
+	var bodyF *types.Var
+	var flags []*types.Var
+	for i := 0; st != nil && i < st.NumFields(); i++ {
+		f := st.Field(i)
+		if pt, ok := f.Type().(*types.Pointer); ok && modType(pt.Elem(), redisPkg, "RespValue") && f.Name() != "resp" {
+			if bodyF == nil {
+				bodyF = f
+			}
+		}
+		if b, ok := f.Type().Underlying().(*types.Basic); ok && b.Kind() == types.Bool {
+			flags = append(flags, f)
+		}
+	}
+	// the body field by role: the *RespValue field that the constructor fills from its parameter
+	var ctors []*ssa.Function
+	ctorParam := map[*ssa.Function]int{}
+	for _, fn := range p.FuncsIn(redisPkg) {
+		if p.isTestFn(fn) || fn.Signature.Results().Len() == 0 {
+			continue
+		}
+		if rt, ok := fn.Signature.Results().At(0).Type().(*types.Pointer); !ok || rt.Elem() != types.Type(reqT) {
+			continue
+		}
+		eachInstr(fn, func(_ *ssa.BasicBlock, _ int, in ssa.Instruction) {
+			s, ok := in.(*ssa.Store)
+			if !ok {
+				return
+			}
+			f, base := fieldAddr(s.Addr)
+			if f == nil || !isFreshAlloc(base) {
+				return
+			}
+			if pt, ok := f.Type().(*types.Pointer); !ok || !modType(pt.Elem(), redisPkg, "RespValue") {
+				return
+			}
+			if prm, ok := s.Val.(*ssa.Parameter); ok {
+				bodyF = f
+				ctors = append(ctors, fn)
+				ctorParam[fn] = paramIndex(fn, prm)
+			}
+		})
+	}
+	if bodyF == nil || len(ctors) == 0 || len(flags) == 0 {
+		c.Unresolved(rule, "simpleRequest body field / constructor / once flag")
+		return
+	}
+	isBodyOfReq := func(v ssa.Value) (bool, ssa.Value) {
+		v = stripConv(v)
+		if f, base := loadedField(v); f == bodyF {
+			return true, base
+		}
+		if call, ok := v.(*ssa.Call); ok {
+			if g := calleeFn(call.Common()); g != nil && trivialGetterField(g) == bodyF && len(call.Call.Args) > 0 {
+				return true, call.Call.Args[0]
+			}
+		}
+		return false, nil
+	}
+	n := 0
+	for _, fn := range p.FuncsIn(redisPkg) {
+		if p.isTestFn(fn) {
+			continue
+		}
+		eachInstr(fn, func(_ *ssa.BasicBlock, _ int, in ssa.Instruction) {
+			call, ok := in.(*ssa.Call)
+			if !ok {
+				return
+			}
+			g := calleeFn(call.Common())
+			idx, isCtor := ctorParam[g]
+			if g == nil || !isCtor || idx >= len(call.Call.Args) {
+				return
+			}
+			n++
+			shared, src := isBodyOfReq(call.Call.Args[idx])
+			site := fmt.Sprintf("%s construction#%d does not share a flagged body", fnKey(fn), n)
+			if !shared {
+				c.OK(rule, site, call.Pos(), "the body is not the body of another request of the flagged type")
+				return
+			}
+			// the flag copied along: new.flag = src.flag for every bool flag that a filter tests
+			copied := 0
+			eachInstr(fn, func(_ *ssa.BasicBlock, _ int, x ssa.Instruction) {
+				s, ok := x.(*ssa.Store)
+				if !ok {
+					return
+				}
+				f, base := fieldAddr(s.Addr)
+				if f == nil || base != ssa.Value(call) {
+					return
+				}
+				if f2, b2 := loadedField(s.Val); f2 == f && b2 == src {
+					copied++
+				}
+			})
+			if copied >= len(flags) {
+				c.OK(rule, site, call.Pos(), "the body is shared and the once-only flags are copied along")
+			} else {
+				c.Fail(rule, site, call.Pos(), "a second request object is built around the body of another request: the in-place compression of the body is guarded by a flag on the request object, the new object starts with the flag clear, so a redirected write whose compressed value is still above the threshold is compressed a second time and reads return the inner frame")
+			}
+		})
+	}
+	if n == 0 {
+		c.Unresolved(rule, "no construction of a simpleRequest")
+	}
 }
